@@ -24,7 +24,7 @@ RULE = ("hostile connections: one hostile item (a mutated message or garbage) se
 ASSUMPTIONS = ["a peer that stalls forever mid-message on the single-threaded multiplex server without a timeout is documented behaviour; hostile clients always close (after <=50 ms)",
                "'still accepts / keeps receiving' = within a 10 s watchdog after the last hostile socket is closed",
                "BaseException-only exceptions (SystemExit ...) raised by methods are outside the statement ('Exception subclasses')"]
-REQUIRED_REACH = ["discovery_responder_ok", "served_while_handshakes_stalled", "abandoned_streams_swept", "injected_yields", "hostile_connections", "witness_calls_ok", "post_attack_handshake_ok", "accounting_restored", "refused_by_full_pool", "error_replies_seen", "stream_guess_phases_ok"]
+REQUIRED_REACH = ["slow_oneway_leavers_ok", "discovery_responder_ok", "served_while_handshakes_stalled", "abandoned_streams_swept", "injected_yields", "hostile_connections", "witness_calls_ok", "post_attack_handshake_ok", "accounting_restored", "refused_by_full_pool", "error_replies_seen", "stream_guess_phases_ok"]
 SHARD_TIMEOUT = {"quick": 240, "thorough": 3000}
 
 
@@ -45,11 +45,21 @@ class BadRepr(Exception):
         raise RuntimeError("no str")
 
 
+NAPS = {}        # key -> (entered Event, release Event)
+
+
 def make_service(P):
     @P.server.expose
     class Svc(object):
         def echo(self, token):
             return token
+
+        def nap(self, key):
+            # an ordinary method that takes its time (until released, 8 s at most); a hostile client may flip the ONEWAY flag on its request
+            entered, release = NAPS[key]
+            entered.set()
+            release.wait(8)
+            return key
 
         def fail_key(self, token):
             raise KeyError(token)          # an ordinary failure of a well-behaved client's own call: the "correct reply" is this very exception
@@ -491,6 +501,58 @@ def stalled_phase(fx, P, rec, cfgkey, pay):
                 pass
 
 
+def slow_oneway_phase(fx, P, rec, cfgkey, pay):
+    """a client asks for a slow method as a ONEWAY call (the flag is the peer's to set), and goes away - garbage first, then a reset - while the
+    method is still running: that connection's worker / selector slot is given back at once, and others are served, while the method runs on"""
+    ser = P.serializers.serializers["marshal"]
+    base = fx.live_connection_count()
+    keys = []
+    try:
+        for k in range(3):
+            key = "nap-%s-%d" % (cfgkey, k)
+            NAPS[key] = (threading.Event(), threading.Event())
+            keys.append(key)
+            c = wire.RawClient(fx.location, timeout=5.0)
+            m = c.handshake("svc", ser)
+            if m.type != wire.CONNECTOK:
+                c.close()
+                rec.inconc("slow oneway phase: handshake refused")
+                return True
+            c.invoke("svc", "nap", (key,), {}, ser, flags=wire.F_ONEWAY)
+            if not NAPS[key][0].wait(5):
+                c.close()
+                rec.inconc("slow oneway phase: the method did not start")
+                return True
+            c.send(b"\x00garbage after the oneway request\xff" * 3)
+            c.close(rst=(k == 1))
+        rec.case(("slow-oneway", cfgkey), nontrivial=True)
+        freed = fx.wait_until(lambda: fx.live_connection_count() <= base, 3.0)
+        still_running = [k for k in keys if not NAPS[k][1].is_set()]
+        ok = False
+        err = None
+        try:
+            with fx.proxy("svc", timeout=3.0) as p:
+                ok = p.echo("during-naps") == "during-naps"
+        except Exception as x:
+            err = x
+        if not fx.loop_alive():
+            rec.violation("request-loop-died", "request loop dead after clients left their running oneway calls behind: %r" % (fx.loop_exc,), pay)
+            return False
+        if not freed or not ok:
+            rec.violation("slot-held-by-running-oneway-call", "3 clients started a slow method as a oneway call and disconnected while it was running (%d still running): "
+                          "%s slot(s) still occupied 3 s later (before: %s); a new client's call %s (cfg %s)" % (
+                              len(still_running), fx.live_connection_count(), base, "succeeded" if ok else "failed with %r" % (err,), cfgkey), pay)
+            return False
+        rec.count("slow_oneway_leavers_ok")
+        return True
+    finally:
+        for k in keys:
+            NAPS[k][1].set()
+        time.sleep(0.05)
+        for k in keys:
+            NAPS.pop(k, None)
+
+
 def run_config(P, cfg, rec, r, n_items):
     fx = fixture.Fixture(servertype=cfg["servertype"], unix=cfg.get("unix", False), ssl=cfg.get("ssl", False), start_loop=not cfg.get("bc"), COMMTIMEOUT=cfg["commtimeout"], THREADPOOL_SIZE=cfg["pool"], THREADPOOL_SIZE_MIN=2, ITER_STREAMING=True,
                          ITER_STREAM_LINGER=0.2, ITER_STREAM_LIFETIME=1.0)      # abandoned streams expire (housekeeping) while the attack is still going on
@@ -636,6 +698,9 @@ def run_config(P, cfg, rec, r, n_items):
                 rec.violation("discovery-responder-silent-after-attack", "after the attack a GET_NSURI datagram got %r (5 tries)" % (answer,), dict(pay, last=last))
                 return
             rec.count("discovery_responder_ok")
+        if cfg["pool"] > 5 and not cfg.get("ssl"):
+            if not slow_oneway_phase(fx, P, rec, cfgkey, dict(pay, last=last)):
+                return
         if cfg["servertype"] == "thread" and cfg["pool"] > 5:
             if not stalled_phase(fx, P, rec, cfgkey, dict(pay, last=last)):
                 return
